@@ -361,6 +361,27 @@ func relayerHistory(w *tracew.Writer, seed int64, run, depth int, period, timeou
 			plan.Txs = append(plan.Txs, tx)
 			off++
 		}
+		// sometimes the last two or three messages travel in ONE transaction (all-or-nothing: if a later message fails, what the
+		// earlier ones did - sequence, accumulator, acceptance, registrations - is undone)
+		if n := len(plan.Txs); n >= 2 && s.R.Intn(4) == 0 {
+			k := 2
+			if n >= 3 && s.R.Intn(2) == 0 {
+				k = 3
+			}
+			single := true
+			for _, t := range plan.Txs[n-k:] {
+				single = single && len(t.Parts) == 0
+			}
+			if single {
+				prop := s.member(vc.Proposer)
+				_, accSeq, _ := s.C.Account(prop.Addr)
+				m, err := s.MergeTxs(prop.Priv, plan.Txs[n-k:], accSeq+uint64(n-k))
+				if err != nil {
+					return err
+				}
+				plan.Txs = append(plan.Txs[:n-k:n-k], m)
+			}
+		}
 		if _, err := s.RunBlock(plan); err != nil {
 			return err
 		}
